@@ -76,3 +76,13 @@ CHECKS["C08"] = dict(level=EX, engine="E3", design_ref="DESIGN.md section 3 C08"
    technique="exhaustive enumeration of documents from a bounded grammar (shapes x per-element features, <= d deviations) x all option sets, against an expat infoset and an independent statement of the whitespace policy; import-export-import stability",
    text="Every document with up to 4 (5) elements and up to 2 (3) deviating features (prefix declared here / on an ancestor / re-declared, second prefix, unqualified, xml: and prefixed attributes, 18 text/tail values with entities, CDATA and whitespace near-misses, comments between tags) is imported under all 12 clean/collapse/literals settings; names, prefixes, attributes, qualified attributes, in-scope bindings, text and tail are compared with an infoset computed by expat (nothing shared with lxml) and my own whitespace policy; the tree is exported and re-imported and compared again.",
    note="No default namespaces, PIs, DTDs; text adjacent to comments and Unicode-space edge cases are unspecified and skipped per slot, not per document.")
+
+CHECKS["C12"] = dict(level=EX, engine="E3", design_ref="DESIGN.md section 3 C12",
+   technique="exhaustive enumeration of tree shapes x copied node x (side, node, single edit) with deep-snapshot frame condition",
+   text="For every ordered tree shape up to 5 (7) nodes in three field populations (including namespace maps whose dict objects are shared across the original), every node is copied; the copy must be equal field-wise, consist of fresh registered nodes with inner parent links, and every single edit of a 20-entry menu (setters, add/remove attribute, in-place dict and list mutation, namespace declare/re-declare/remove, child add/remove/clear/shift) applied to any node of either side must leave the other side's deep snapshot unchanged.",
+   note="One edit at a time after the copy; the edit menu is the bound on 'any later edit'.")
+
+CHECKS["C18"] = dict(level=EX, engine="E3", design_ref="DESIGN.md section 3 C18",
+   technique="exhaustive enumeration of tree shapes x (node, single-field difference) pairs and (node, edit-after-copy) pairs, both argument orders",
+   text="For every ordered tree shape up to 6 (8) nodes with all fields populated: twins and copies must compare equal; every pair differing in exactly one field of exactly one node (28 difference kinds over name, content incl. ''/None, tail, attributes, extras, prefix, nsmap, children added/removed/swapped) must compare unequal, symmetrically; a copy must stop being equal after any one edit anywhere on either side.",
+   note="Same-object comparison and dict-order-only differences are outside the statement.")
